@@ -22,6 +22,20 @@ Pt = z3.DeclareSort("Pt")
 MID = z3.Function("mid", Pt, Pt, Pt)
 
 
+class NonMidArithmetic(Exception):
+    """The code under analysis computed with a coordinate instead of handing points to the midpoint function."""
+
+
+class Coord(tuple):
+    """One coordinate of an opaque point: (kind, point term); any arithmetic on it is reported."""
+
+    def _no(self, *a, **k):
+        raise NonMidArithmetic("arithmetic on the %s of an opaque point" % (self[0],))
+
+    __add__ = __radd__ = __sub__ = __rsub__ = __mul__ = __rmul__ = __truediv__ = __rtruediv__ = __neg__ = __abs__ = _no
+    __lt__ = __le__ = __gt__ = __ge__ = __float__ = _no
+
+
 class OP:
     """Opaque point: usable as the (lon, lat) tuple toast.py passes around and as the struct the .pyx uses."""
 
@@ -29,7 +43,7 @@ class OP:
         self.t = t
 
     def __getitem__(self, k):
-        return (("lon", "lat")[k], self.t)
+        return Coord((("lon", "lat")[k], self.t))
 
     def __len__(self):
         return 2
@@ -60,8 +74,10 @@ class CenRec:
         self.store[(self.r0, self.c0)] = val
 
 
-def euf_subsample(mod, n, increasing):
-    """-> (verdict, n_cells, n_mid_applications, seconds, counterexample cell or None)"""
+def euf_subsample(mod, n, increasing, pos0=None, ctx=None):
+    """-> (verdict, n_cells, n_mid_applications, seconds, counterexample cell or None)
+    pos0: the position of the tile (default Pos(0, 0, 0)); its fields may be symx.SymInt when run under symx.explore
+    (ctx given): the subdivision is then decided for EVERY level and position the path condition allows."""
     pairs = set()
 
     def umid_py(a, b):
@@ -78,11 +94,11 @@ def euf_subsample(mod, n, increasing):
 
         @property
         def x(self):
-            return ("lon", self.t)
+            return Coord(("lon", self.t))
 
         @property
         def y(self):
-            return ("lat", self.t)
+            return Coord(("lat", self.t))
 
     corners = [OP(z3.Const(nm, Pt)) for nm in ("ul", "ur", "lr", "ll")]
     mod.Point = P2
@@ -102,14 +118,30 @@ def euf_subsample(mod, n, increasing):
     tt.mid = umid_py
     try:
         k = int(math.log2(n))
-        tiles = {(0, 0): Tile(Pos(0, 0, 0), tuple(corners), increasing)}
-        for _ in range(k):
+        p0 = pos0 if pos0 is not None else Pos(0, 0, 0)
+        tiles = {(0, 0): Tile(p0, tuple(corners), increasing)}
+        for lvl in range(1, k + 1):
             nxt = {}
             for (x, y), t in tiles.items():
-                for ch in tt._div4(t):
+                try:
+                    chs = tt._div4(t)
+                except NonMidArithmetic as e:
+                    return "sat", 0, len(pairs), 0.0, ("_div4 at relative level %d: %s" % (lvl - 1, e),)
+                for c, ch in enumerate(chs):
                     if ch.increasing != increasing:
                         raise HarnessError("_div4 does not inherit the diagonal orientation")
-                    nxt[(ch.pos.x, ch.pos.y)] = ch
+                    key = (2 * x + (c & 1), 2 * y + (c >> 1))
+                    want = (p0.n + lvl, p0.x * 2 ** lvl + key[0], p0.y * 2 ** lvl + key[1])
+                    got = (ch.pos.n, ch.pos.x, ch.pos.y)
+                    if ctx is None:
+                        same = tuple(int(v) for v in got) == tuple(int(v) for v in want)
+                    else:
+                        from vlib.symx import I as _I
+                        r_, _m = ctx.prove(z3.And(*[_I(a) == _I(b) for a, b in zip(got, want)]))
+                        same = r_ == "unsat"
+                    if not same:
+                        return "sat", 0, len(pairs), 0.0, ("child %d of relative position %r is not at (n+1, 2x+dx, 2y+dy)" % (c, (x, y)),)
+                    nxt[key] = ch
             tiles = nxt
         cent = {}
         for (x, y), t in tiles.items():
@@ -145,24 +177,29 @@ def euf_subsample(mod, n, increasing):
     return str(r), len(cent), len(pairs), dt, bad
 
 
-def concrete_disagreement(n, increasing, csub=None):
+def concrete_disagreement(n, increasing, csub=None, level=None):
     """Replay on the real code: subsample (compiled, or the given implementation) vs descent through the real _div4
-    with the real mid, on real tiles."""
+    with the real mid, on real tiles (level-2 tiles, or tiles of the given level next to the pole / on the equator)."""
     if csub is None:
         from toasty._libtoasty import subsample as csub
     worst = (0.0, None)
     for cs in (tt.ToastCoordinateSystem.ASTRONOMICAL, tt.ToastCoordinateSystem.PLANETARY):
-        for t1 in tt._create_level1_tiles(cs):
-            if t1.increasing != increasing:
-                continue
-            for t in tt._div4(t1)[1:3]:
+        if level is not None and level >= 2:
+            h = 2 ** (level - 1)
+            starts = [tt.create_single_tile(Pos(level, x, y), cs) for x, y in ((h, h), (h - 1, h - 1), (h, h - 1), (h - 1, h), (h + h // 2, h // 2), (1, h // 2), (0, 0))]
+        else:
+            starts = [t for t1 in tt._create_level1_tiles(cs) for t in tt._div4(t1)[1:3]]
+        for t1 in [None]:
+            for t in starts:
+                if t.increasing != increasing:
+                    continue
                 lons, lats = csub(*t.corners, n, t.increasing)
-                tiles = {(0, 0): Tile(Pos(0, 0, 0), t.corners, t.increasing)}
+                tiles = {(0, 0): Tile(t.pos if level is not None else Pos(0, 0, 0), t.corners, t.increasing)}
                 for _ in range(int(math.log2(n))):
                     nxt = {}
                     for (x, y), tl in tiles.items():
-                        for ch in tt._div4(tl):
-                            nxt[(ch.pos.x, ch.pos.y)] = ch
+                        for c, ch in enumerate(tt._div4(tl)):
+                            nxt[(2 * x + (c & 1), 2 * y + (c >> 1))] = ch
                     tiles = nxt
                 for (x, y), tl in tiles.items():
                     ul, ur, lr, ll = tl.corners
@@ -215,6 +252,59 @@ def check(run):
                         run.error(nm, "EUF counterexample at cell %r shows neither on the compiled extension nor on the decythonised source (max diff %.3g)" % (bad, d2))
             else:
                 run.ob(nm, "inconclusive", "E4:euf", "solver %s after %.0fs" % (r, dt), queries=1, solver_s=dt)
+    # every level and position at once: the tile's (n, x, y) are symbolic integers, so a subdivision rule that depends
+    # on the depth or on the position forks the exploration and each variant is decided
+    from vlib import symx
+    for inc in (True, False):
+        nsub = 4 if run.tier == "quick" else 16
+        nm = "subsample-equals-div4-descent[any level, any position, n=%d,%s]" % (nsub, "increasing" if inc else "decreasing")
+        stats = {}
+        res = []
+
+        def h(ctx, inc=inc, nsub=nsub):
+            lv, px, py = z3.Int("level"), z3.Int("x"), z3.Int("y")
+            ctx.assume(z3.And(lv >= 0, lv <= 64, px >= 0, py >= 0))
+            return euf_subsample(mod, nsub, inc, pos0=Pos(symx.SymInt(lv), symx.SymInt(px), symx.SymInt(py)), ctx=ctx), ctx
+
+        t0 = time.time()
+        bad = None
+        npaths = 0
+        for ctx, out in symx.explore(h, stats=stats, max_paths=200, timeout_ms=60000, seed=run.seed):
+            npaths += 1
+            if not isinstance(out, tuple):
+                run.error(nm, "exploration ended with %r" % (out,))
+                bad = "error"
+                break
+            (r, cells, napps, dt, cell), _c = out
+            if r != "unsat":
+                rr, m = ctx.reachable(True)
+                lvl = m.eval(z3.Int("level"), model_completion=True).as_long() if rr == "sat" else None
+                bad = (r, cell, lvl)
+                break
+        dt = time.time() - t0
+        if bad is None:
+            run.ob(nm, "unsat", "E4:euf+symx", "%d path(s) over the symbolic (level, x, y); each: centre terms equal modulo commutativity" % npaths, queries=stats.get("queries", 0) + npaths, solver_s=dt)
+        elif bad != "error":
+            r, cell, lvl = bad
+            if r != "sat" or lvl is None:
+                run.ob(nm, "inconclusive", "E4:euf+symx", "solver %s at level %r" % (r, lvl))
+            else:
+                kk = 16
+                found = None
+                for L in [lvl] + [l for l in range(max(2, lvl - 4), lvl + 3) if l != lvl and l >= 2]:
+                    d, where = concrete_disagreement(kk, inc, level=L)
+                    if d > 1e-9:
+                        found = (L, d, where)
+                        break
+                if found:
+                    L, d, where = found
+                    text = ("# compiled subsample vs descent through the real _div4 on real level-%d tiles\nimport sys\nsys.path.insert(0, %r)\nimport props.C05 as P\n"
+                            "d, where = P.concrete_disagreement(%d, %r, level=%d)\nprint(d, where)\nsys.exit(1 if d > 1e-9 else 0)\n") % (L, str(__import__("vlib.core").core.VERIF), kk, inc, L)
+                    run.violation(nm, "subsample-vs-div4:level-dependent:%s" % ("increasing" if inc else "decreasing"),
+                                  "for tiles of level %d the pixel grid differs from the centres of the descendants produced by _div4 (%s; real code: max |xyz difference| %.3g at %r)" % (L, cell, d, where),
+                                  text, "E4:euf+symx", queries=npaths, solver_s=dt)
+                else:
+                    run.error(nm, "level-dependent subdivision (%s at level %r) does not show on real tiles of levels %d..%d" % (cell, lvl, max(2, lvl - 4), lvl + 2))
     # argument order at the call site: real toast_tile_get_coords with a recording stand-in for the compiled subsample
     calls = []
     saved = tt.subsample
